@@ -203,7 +203,7 @@ def lazy_monitors(prop, o):
 
 
 
-def scan_part(ctx, rng):
+def scan_part(ctx, rng, prop="C03"):
     """C03: the real TestNode.scan_states under a stubbed door (ok / assertion / any other fault), against Model/Scan.v"""
     from unittest import mock
     from aexpect.exceptions import ShellCmdError
@@ -243,10 +243,16 @@ def scan_part(ctx, rng):
                    f"({sum(1 for c in cases if c['leaf'])} on tests that set no state, {sum(1 for c in cases if c['door'] == 'DoorOther')} with a faulty check run)")
     for k in bad[:1]:
         c = cases[k]
-        has_input = (not c["leaf"]) and c["door"] != "DoorAssertion" and c["answer"].endswith("Some true")
-        ctx.fail("C03:scan-runs-present-setup" if has_input else "C03:scan-classification",
+        # a wrong yes/no answer on a test that sets states is the property failing: 'run' without a reported missing state executes
+        # a present setup (C03); 'do not run' for a check run that reported a missing state, or that could not be completed,
+        # lets the dependants start without the state (C01)
+        wrong_run = (not c["leaf"]) and c["door"] != "DoorAssertion" and c["answer"].endswith("Some true")
+        wrong_skip = (not c["leaf"]) and c["door"] != "DoorOk" and c["answer"].endswith("Some false")
+        has_input = wrong_run or wrong_skip
+        ctx.fail(f"{prop}:scan-" + ("runs-present-setup" if wrong_run else "skips-setup-of-unknown-presence" if wrong_skip else "classification"),
                  f"scan_states answered {c['answer']} for a check run that {'failed with ' + repr(c['output']) if c['output'] is not None else 'succeeded'}"
-                 + (": a setup test whose states were not reported missing is to be executed" if has_input else ""),
+                 + (": a setup test whose states were not reported missing is to be executed" if wrong_run else
+                    ": a setup test is skipped although its states were not found present" if wrong_skip else ""),
                  {"scan_case": c}, has_input)
     ctx.count(len(cases), sum(1 for c in cases if not c["leaf"]))
 
@@ -462,8 +468,8 @@ def run_property(ctx, prop, replay=None):
             ctx.fail(sig, f"{prop}: {text}", d, True)
     ctx.obligation(f"monitor:{prop}", "monitor", True, f"{hits} monitor hits in {len(cases)} traversals (see violations / known findings)")
     lazy_part(ctx, prop, rng, seen, replay)
-    if prop == "C03" and (not replay or "scan_case" in replay.get("data", {})):
-        scan_part(ctx, rng)
+    if prop in ("C01", "C03") and (not replay or "scan_case" in replay.get("data", {})):
+        scan_part(ctx, rng, prop)
     sections = sum(len(c["run"].sections) for c in cases)
     contended = sum(1 for c in cases if any(e[0] == "bounce" for evs in c["run"].events for e in evs))
     ctx.count(len(cases), contended)
